@@ -1430,8 +1430,23 @@ func (c *Ctx) pairedByEarlyReturn(nf *Func, incSite *uifSite, incStmt ast.Node, 
 	// the unconditional deferred decrement
 	deferV := -1
 	for _, v := range g.Vertices(func(n ast.Node) bool { _, ok := n.(*ast.DeferStmt); return ok }) {
-		dl := nf.LitOfDefer(g.Node(v).(*ast.DeferStmt))
+		ds := g.Node(v).(*ast.DeferStmt)
+		dl := nf.LitOfDefer(ds)
 		if dl == nil {
+			// `defer c.updateInFlight(func(s) { s.outgoingNotifications-- })`: the locked closure is deferred directly
+			for _, s := range c.uifSites(nf) {
+				if s.Call != ds.Call {
+					continue
+				}
+				for _, w := range s.Lit.FieldWrites(s.Lit.Body, outN, false) {
+					if id, ok := w.(*ast.IncDecStmt); ok && id.Tok == token.DEC {
+						sg := s.Lit.Graph()
+						if always, _ := sg.MustPassIncl(sg.Entry, sg.Exits, func(u int) bool { return u == sg.VertexOf(w) }); always {
+							deferV = v
+						}
+					}
+				}
+			}
 			continue
 		}
 		for _, s := range c.uifSites(dl) {
